@@ -225,7 +225,9 @@ def check_C10(sc, v, tier, seed, replay):
     lines, idn = [], 0
     for h in range(nh):
         enc, integ = pairs[h % 6]
-        dl0 = rnd.choice([0, 0, 250, 65530, (1 << 24) - 6, rnd.randrange(1 << 24)])
+        dl0 = [0, 250, 65530, (1 << 24) - 6, 0, rnd.randrange(1 << 24), 250, (1 << 24) - 6][h % 8]
+        if h >= 8:
+            dl0 = rnd.choice([0, 0, 250, 65530, (1 << 24) - 6, rnd.randrange(1 << 24)])
         lines.append({"ev": "Start", "id": idn, "hist": h, "enc": enc, "int": integ,
                       "kenc": [rnd.randrange(256) for _ in range(16)], "kint": [rnd.randrange(256) for _ in range(16)], "dl": dl0, "ul": 0})
         idn += 1
@@ -234,7 +236,11 @@ def check_C10(sc, v, tier, seed, replay):
             hdr = 2 if x < 0.6 else 1 if x < 0.75 else 0 if x < 0.85 else 3 if x < 0.93 else 4
             if s == 0 and dl0 == 0:
                 hdr = 3      # Security Mode Command opens a fresh context
-            skip = rnd.choice([0, 0, 0, 1, 16, 254])
+            skip = rnd.choice([0, 0, 0, 1, 16, 254, 126, 127, 128])
+            if s == 12:
+                hdr = [3, 4][h % 2]       # a new security context in the middle of every history, integrity-only and ciphered in turn
+            if s in (5, 6, 7):
+                skip = [126, 127, 128][s - 5]
             lines.append({"ev": "Msg", "id": idn, "hist": h, "hdr": hdr, "skip": skip, "plain": rnd.choice(msgs)})
             idn += 1
     skel = os.path.join(sc.work, "dlskel.ndjson")
@@ -1129,7 +1135,7 @@ def _nas_cases(rnd, table, shapes, tier):
             if oshapes[i] and oshapes[i]["kind"] in ("lv-array", "lve-array", "octet"):
                 continue
             top = 262 if row[1] in ("TLVE", "LVE") else 256
-            for L in range(246, top):
+            for L in [0, 1, 2] + list(range(246, top)):
                 hdr = [0] if t["epd"] == 126 else [rnd.randrange(256), rnd.randrange(256)]
                 mand = [[rnd.randrange(256) for _ in range(val_len(r2[1], r2[2], s2, 1))] for (r2, s2) in zip(t["mand"], mshapes)]
                 opt = []
@@ -1146,13 +1152,31 @@ def _nas_cases(rnd, table, shapes, tier):
                     opt.append({"iei": rj[0], "v": v})
                 cases.append({"id": idn, "kind": "msg", "name": name, "hdr": hdr, "mand": mand, "opt": opt, "perm": list(range(1, len(opt) + 1))})
                 idn += 1
+    # the same sweep for the mandatory LV / LV-E information elements (5GS mobile identity, ABBA, EAP message, payload container ...)
+    for name in sorted(table):
+        t = table[name]
+        sh = byname.get(name)
+        sm = (sh or {}).get("mand") or []
+        mshapes = sm if len(sm) == len(t["mand"]) else [None] * len(t["mand"])
+        for i, (row, s2) in enumerate(zip(t["mand"], mshapes)):
+            if row[1] not in ("LV", "LVE") or (s2 and s2["kind"] in ("lv-array", "lve-array", "octet")):
+                continue
+            top = 262 if row[1] == "LVE" else 256
+            for L in [0, 1, 2] + list(range(246, top)):
+                hdr = [0] if t["epd"] == 126 else [rnd.randrange(256), rnd.randrange(256)]
+                mand = []
+                for j, (r2, s3) in enumerate(zip(t["mand"], mshapes)):
+                    n = L if j == i else val_len(r2[1], r2[2], s3, 1)
+                    mand.append([rnd.randrange(256) for _ in range(n)])
+                cases.append({"id": idn, "kind": "msg", "name": name, "hdr": hdr, "mand": mand, "opt": [], "perm": []})
+                idn += 1
     known5gmm = {t["mt"] for t in table.values() if t["epd"] == 126}
     known5gsm = {t["mt"] for t in table.values() if t["epd"] == 46}
     for mt in range(256):
-        if mt not in known5gmm and (tier != "quick" or mt % 16 == 1):
+        if mt not in known5gmm:
             cases.append({"id": idn, "kind": "unknown", "bytes": [126, 0, mt, 0, 0, 0]})
             idn += 1
-        if mt not in known5gsm and (tier != "quick" or mt % 16 == 2):
+        if mt not in known5gsm:
             cases.append({"id": idn, "kind": "unknown", "bytes": [46, 5, 1, mt, 0, 0]})
             idn += 1
     return cases
